@@ -166,4 +166,16 @@ CLAIMS = {
               "installed stim when importable); numpy exp/min/max semantics. Not decided: numeric values of probabilities."),
         technique="static analysis: path enumeration of emit loops, literal key tables vs. alias reference, affine normal form + interval bound of the error formula",
     ),
+    "C15": dict(
+        text=("Decides the OpenQL exporter from its source: the 13-entry operation-type -> instruction table is evaluated from its literal and "
+              "compared with the documented names; the name, wait, barrier and controlled-phase factories are checked as ordered effect sequences "
+              "on the kernel (cz, barrier on the pair, update_ph control, update_ph target; wait keeps int(duration) on the operation's qubits); "
+              "the walk is tabulated over (is sub-circuit, is supported): all nodes in order, a sub-circuit added nr_of_repetitions times, one "
+              "kernel extension per supported operation, nothing for unsupported ones, final add_kernel; a typestate rule on the pending kernel "
+              "(flush before a sub-program is added) and a name-freshness rule for repetitions; determinism of names by a backward slice "
+              "(ordered class names of the listing -> uuid5; no uuid1/uuid4/random/time/id/hash/set)."),
+        note=("Known findings (recorded, exit 0): the pending kernel is emitted after all sub-programs (O4) and repetitions re-use one kernel name "
+              "(O5). Trusted: documented instruction names; OpenQL's Program/Kernel API semantics. The cQASM text itself is not examined."),
+        technique="static analysis: literal table vs. spec, ordered-effect (typestate) rules on kernel/program calls, case table of the walk, backward slice of names",
+    ),
 }
